@@ -78,8 +78,8 @@ def ttsvV1 [Add α] [Mul α] [Zero α] (T : Dense α) (x : List α) (skip : Opti
     if s == 0 then .ok (.vec t.data) else if s == 1 then .ok (.mat t) else .ok (.tensor t)
 
 /-- `version == 2` or absent: all extents equal `sz = shape[0]`, the vector has length `sz` when a
-mode is multiplied; the loop; then a matrix for two result modes, a tensor for more, and for fewer the
-single entry as a scalar `if len(y) == 1`, else the vector. -/
+mode is multiplied; the loop; then a matrix for two result modes, a tensor for more, the single entry as a
+scalar when every mode was multiplied out (`if dnew == 0`, after the fix 0527d3b), else the vector. -/
 def ttsvV2 [Add α] [Mul α] [Zero α] (T : Dense α) (x : List α) (s : Int) : Except Reject (ML.TtsvRes α) :=
   let d := T.shape.length
   match T.shape with
@@ -93,7 +93,7 @@ def ttsvV2 [Add α] [Mul α] [Zero α] (T : Dense α) (x : List α) (s : Int) : 
       let y := ttsvLoop x sz dnew drem T.data
       if dnew == 2 then .ok (.mat ⟨[sz, sz], y⟩)
       else if dnew > 2 then .ok (.tensor ⟨List.replicate dnew sz, y⟩)
-      else if y.length == 1 then .ok (.scalar (y.getD 0 0))
+      else if dnew == 0 then .ok (.scalar (y.getD 0 0))
       else .ok (.vec y)
 
 /-- `tensor.ttsv(vector, skip_dim, version)`. -/
